@@ -65,16 +65,14 @@ def handle : Handler := fun op args impl =>
     some ⟨m, v⟩
   | "countdiffs", [_, rows] => do
     let rows ← decRows rows
-    match countDifferences rows with
-    | none => some ⟨"panic", "na"⟩
-    | some (all, per) =>
+    let (all, per) := countDifferences rows
     let encPer (m : List ((Byte × Byte) × Nat)) : String :=
       if m.isEmpty then "_" else
       let sorted := m.mergeSort fun a b => decide (chr2 a.1 ≤ chr2 b.1)
       "+".intercalate (sorted.map fun p => chr2 p.1 ++ "=" ++ toString p.2)
     let v := match impl.splitOn " " with
       | [a, _] => verdictOf (a == strJoin ((Spec.allDiffs rows).map chr2)) "alldiffs-not-first-occurrences"
-      | _ => "fail:unparsable"
+      | _ => if impl.startsWith "panic" then "fail:countdifferences-crash" else "fail:unparsable"
     some ⟨strJoin (all.map chr2) ++ " " ++ strJoin (per.map encPer), v⟩
   | "uniques", [alpha, rows] => do
     let alpha ← alpha.toNat?
@@ -90,6 +88,44 @@ def handle : Handler := fun op args impl =>
     let e := plus (Spec.numGapsUnique rows L.toNat) ++ " " ++ z ++ " " ++ z ++ " " ++
       plus (Spec.numMutationsUnique rows L.toNat alpha) ++ " " ++ z ++ " " ++ z
     some ⟨g ++ " " ++ z ++ " " ++ z ++ " " ++ mu ++ " " ++ z ++ " " ++ z, verdictOf (impl == e) "uniques-naive"⟩
+  | "uniquesprof", [alpha, rows, prows] => do
+    -- the three outputs (unique / new / both) of the two counters with a count profile built from a second
+    -- alignment: naive recounts (`Gv.Spec.Stats`); they serve as model and as predicate
+    let alpha ← alpha.toNat?
+    let rows ← decRows rows
+    let prows ← decRows prows
+    let L := (lenOf rows).toNat
+    let Lp := (lenOf prows).toNat
+    if (rows ++ prows).any (fun r => r.2.any fun c => c ≥ 130) then some ⟨"unmodelled", "na"⟩ else
+    if !Spec.profileFits prows Lp L then some ⟨"err", verdictOf (impl == "err") "profile-length-must-be-checked"⟩ else
+    let idx := List.range rows.length
+    let g := idx.map (Spec.gapsWithProfileOf rows prows L)
+    let mu := idx.map (Spec.mutationsWithProfileOf (Spec.wildcardOf alpha) rows prows L)
+    let e := plus (g.map (·.1)) ++ " " ++ plus (g.map (·.2.1)) ++ " " ++ plus (g.map (·.2.2)) ++ " " ++
+      plus (mu.map (·.1)) ++ " " ++ plus (mu.map (·.2.1)) ++ " " ++ plus (mu.map (·.2.2))
+    some ⟨e, verdictOf (impl == e) "uniques-with-profile-naive"⟩
+  | "pssm", [alpha, rows, lg, pseudo, norm, _] => do
+    -- Pssm is not modelled: repeated calls must agree; without normalisation, pseudo-count and logarithm the
+    -- entries are the naive counts of the (upper-cased) alphabet characters per site
+    let alpha ← alpha.toNat?
+    let rows ← decRows rows
+    if impl.startsWith "NONDET" then some ⟨impl, "fail:nondeterministic"⟩ else
+    if !(lg == "0" && pseudo == "0" && norm == "0") || !impl.startsWith "ok " then some ⟨impl, "pass"⟩ else
+    let L := (lenOf rows).toNat
+    let okEntry (e : String) : Bool :=
+      match e.splitOn "=" with
+      | [k, vs] =>
+        match k.toNat? with
+        | none => false
+        | some k =>
+          let decs := (vs.splitOn "+").map fun t => (t.splitOn ":").getD 2 "?"
+          decs == (List.range L).map fun j => toString (Spec.occ Spec.upperCase (Spec.column rows j) (UInt8.ofNat k))
+      | _ => false
+    let body := (impl.drop 3).toString
+    let chars : List Byte := if alpha == 0 then Gen.stdaminoacid else Gen.stdnucleotides
+    let keys := (decStrs body).filterMap fun e => ((e.splitOn "=").getD 0 "").toNat?
+    let okKeys := keys == (chars.map (·.toNat)).mergeSort (fun a b => decide (a ≤ b))
+    some ⟨impl, if !okKeys then "fail:pssm-alphabet" else verdictOf ((decStrs body).all okEntry) "pssm-counts-naive"⟩
   | "profile", [_, rows, code, site] => do
     let rows ← decRows rows
     let code ← code.toNat?
@@ -99,7 +135,9 @@ def handle : Handler := fun op args impl =>
     let encCnt (o : Option Nat) : String := match o with | some n => "ok:" ++ toString n | none => "err"
     let render (header : List Byte) (counts : List (List Nat)) (cnt : String) : String :=
       (if header.isEmpty then "-" else hexOfBytes header) ++ " " ++ strJoin (counts.map plus) ++ " " ++ cnt ++ " " ++
-        (if header.isEmpty then "11" else "10")
+        (if header.isEmpty then "11" else "10") ++ " " ++
+        -- CountsAt / NameAt at the first character index outside the header, and at -1: errors
+        "err err err"
     let m := match countProfile rows L with
       | none => "panic"
       | some prof =>
